@@ -102,7 +102,11 @@ impl Package {
 
     /// Write the RPM package to a file
     pub fn write_file(&self, path: impl AsRef<Path>) -> Result<(), Error> {
-        self.write(&mut io::BufWriter::new(fs::File::create(path)?))
+        let mut out = io::BufWriter::new(fs::File::create(path)?);
+        self.write(&mut out)?;
+        // dropping a BufWriter discards the error of its final flush
+        out.flush()?;
+        Ok(())
     }
 
     /// Iterate over the file contents of the package payload
